@@ -129,9 +129,20 @@ def finish(ctx, explanation, trusted_extra=(), assumptions=()):
             continue
         seen_known.add(key)
         lines.append('KNOWN-FINDING: property=%s rule=%s function=%s role=%s %s' % (ctx.prop, o.rule, o.function, o.role, k.get('what_fails', '')))
-    for i, o in enumerate(new_viol, 1):
+    # one report per (rule, function, role): further instantiations of the same construct are counted, not repeated
+    grouped, order = {}, []
+    for o in new_viol:
+        key = (o.rule, o.function, o.role)
+        if key not in grouped:
+            grouped[key] = []
+            order.append(key)
+        grouped[key].append(o)
+    for i, key in enumerate(order, 1):
+        o = grouped[key][0]
         path = os.path.join(rep_dir, 'violation-%d.json' % i)
         rep = o.as_dict()
+        rep['instances'] = len(grouped[key])
+        rep['other_instances'] = [x.detail[-160:] for x in grouped[key][1:6]]
         rep['property'] = ctx.prop
         rep['tier'] = ctx.tier
         json.dump(rep, open(path, 'w'), indent=1)
@@ -142,6 +153,8 @@ def finish(ctx, explanation, trusted_extra=(), assumptions=()):
         lines.append('  detail    %s' % o.detail)
         if o.witness:
             lines.append('  path      %s' % o.witness)
+        if len(grouped[key]) > 1:
+            lines.append('  (+%d more instantiation(s) of the same construct)' % (len(grouped[key]) - 1))
     for o in undec:
         lines.append('UNDECIDED property=%s rule=%s function=%s role=%s at %s: %s' % (ctx.prop, o.rule, o.function, o.role, o.where, o.detail))
 
